@@ -581,3 +581,64 @@ func TestVerif_C19_walker(t *testing.T) {
 	}
 	r.Param("trees", fmt.Sprint(i))
 }
+
+// ---------------------------------------------------------------- layer: root spellings
+// The same directory named in different ways: the listing must be the listing of the canonical spelling with the
+// printed prefix exchanged (only a leading "./" is dropped). The interesting spellings are not purely lexical: a
+// root through a symlinked directory plus ".." ("link/../other" with link -> real/sub is real/other, not other).
+func TestVerif_C19_root_spellings(t *testing.T) {
+	r := kit.Start("C19", "root-spellings")
+	if r == nil {
+		t.Skip()
+	}
+	defer r.Finish()
+	if r.Shard != 0 {
+		return
+	}
+	top, err := os.MkdirTemp(".", "c19rs")
+	c19Must(err)
+	top, _ = filepath.Abs(top)
+	defer os.RemoveAll(top)
+	for _, d := range []string{"real/sub", "real/other/d", "real/other/.hd", "other/decoy", "real/other/a"} {
+		c19Must(os.MkdirAll(filepath.Join(top, d), 0o755))
+	}
+	for _, f := range []string{"real/other/f", "real/other/d/g", "real/other/.hd/h", "other/decoy/x", "real/other/a/b c"} {
+		c19Must(os.WriteFile(filepath.Join(top, f), nil, 0o644))
+	}
+	c19Must(os.Symlink("real/sub", filepath.Join(top, "link")))
+	c19Must(os.Symlink("../d", filepath.Join(top, "real/other/ld")))
+	c19Must(os.Chdir(top))
+	canonical := "real/other"
+	spellings := []string{"./real/other", "real/other/", "real//other", "real/./other", "real/sub/../other", "link/../other", "./link/../other", "other/../real/other"}
+	r.Sample(map[string]any{"canonical": canonical, "spelling": "link/../other", "link": "link -> real/sub"})
+	for _, walker := range []string{"file", "file,dir", "file,follow", "dir,follow,hidden", "file,dir,follow,hidden"} {
+		o, err := parseWalkerOpts(walker)
+		c19Must(err)
+		for _, skip := range []string{"", "a", "real/other/a"} {
+			skips := filterNonEmpty(strings.Split(skip, ","))
+			detail := func() map[string]any { return map[string]any{"walker": walker, "walker_skip": skip} }
+			base, _ := c19Walk(r, detail, []string{canonical}, o, skips)
+			for _, sp := range spellings {
+				got, _ := c19Walk(r, detail, []string{sp}, o, skips)
+				printed := strings.TrimPrefix(sp, "./")
+				printed = strings.TrimSuffix(printed, "/")
+				var want []string
+				for _, l := range base {
+					want = append(want, printed+strings.TrimPrefix(l, canonical))
+				}
+				// a skip entry given as a path is matched against the path as printed: compare only where it cannot differ
+				if strings.Contains(skip, "/") && printed != canonical {
+					continue
+				}
+				sort.Strings(want)
+				r.State()
+				if len(want) > 0 {
+					r.NT()
+				}
+				if strings.Join(got, "\n") != strings.Join(want, "\n") {
+					r.Violation("root-spelling-changes-listing", map[string]any{"walker": walker, "walker_skip": skip, "canonical_root": canonical, "root": sp, "got": got, "want": want})
+				}
+			}
+		}
+	}
+}
